@@ -217,7 +217,7 @@ class TlcResult:
             self.depth = int(m.group(1))
         self.finished = "Model checking completed" in out or "Finished in" in out
         self.violated_invariants = re.findall(r"Invariant (\S+) is violated", out)
-        self.violated_props = re.findall(r"Temporal properties were violated", out)
+        self.violated_props = re.findall(r"Temporal propert(?:ies were|y \S+ was) violated", out)
         self.action_violations = re.findall(r"Action property (\S+) is violated", out)
         self.errors = [l for l in out.splitlines() if l.startswith("Error:")]
         self.postcondition_false = "Postcondition" in out and "is false" in out.lower() or "POSTCONDITION" in out and "violated" in out
